@@ -155,7 +155,11 @@ class DataStream(object):
         v_std : float
             Noise standard deviation
         """
-        noise_func = lambda ts: v_mean + v_std * self.rng.standard_normal(size=len(ts))
+        # Each further noise source draws from its own child generator. Sharing one
+        # generator would interleave the sources' draws request by request, so that
+        # the voltages depend on how the sample requests are chunked
+        rng = self.rng if len(self.noise_sources) == 0 else self.rng.spawn(1)[0]
+        noise_func = lambda ts: v_mean + v_std * rng.standard_normal(size=len(ts))
         
         # Variances add, not standard deviations
         self.noise_std = xp.sqrt(self.noise_std**2 + v_std**2)
